@@ -1403,14 +1403,23 @@ func streamHook(rep *Report, tier string, seed uint64) {
 							}
 							var out []byte
 							var pm string
+							d := d // (the %w position rewrites it for the checks below)
 							if pos == "w" {
-								if d != "%v" {
+								// %w spelled plainly, with a width, and with an explicit argument index
+								wf, ok := map[string]string{"%v": "A:%w:B", "%8v": "A:%8w:B", "%s": "A:%[1]w:B", "%q": "A:%.9w:B"}[d]
+								if !ok {
 									continue
 								}
 								pm = safely(func() {
-									s, _ := redact.HelperForErrorf("A:%w:B", e)
+									var s redact.RedactableString
+									if strings.Contains(wf, "[2]") {
+										s, _ = redact.HelperForErrorf(wf, e, 7)
+									} else {
+										s, _ = redact.HelperForErrorf(wf, e)
+									}
 									out = []byte(s)
 								})
+								d = "%v"
 							} else {
 								out, pm = rSprintf(f, []interface{}{arg})
 							}
